@@ -240,7 +240,9 @@ class Monitor:
     def checkpoint(self, now):
         self._classify_pending()
         for s in self.live.values():
-            overdue = not s.pins() and now - s.last > self.timeout + 1
+            # (a handler that takes `slack` ms stamps the session that much later than the
+            # arrival the model knows of)
+            overdue = not s.pins() and now - s.last > self.timeout + 1 + getattr(self, "slack", 0)
             # the pins may have gone only during the last timer step: give the library one
             # more coap_io_prepare_io (the next checkpoint) before calling it overdue
             if overdue and not getattr(s, "overdue_seen", False):
@@ -289,8 +291,9 @@ def scenario(exe, r, run, stats, witness):
     pending_notifs = {}
     # (the handler of the deferred resource may take a few ms: virtual time passes inside
     # the library call that runs it, so "now" sampled before the call is stale after it)
-    sim.cmd("res 0 %s body=fixed:73 sep=%d busy=%d" % (b"s".hex(), r.choice([200, 5000]),
-                                                      r.choice([0, 0, 1, 5, 40])))
+    busy = r.choice([0, 0, 1, 5, 40])
+    mon.slack = 2 * busy
+    sim.cmd("res 0 %s body=fixed:73 sep=%d busy=%d" % (b"s".hex(), r.choice([200, 5000]), busy))
     sim.cmd("res 0 %s body=fixed:72 sref=1" % b"r".hex())
     silent = set(i for i in range(npeers) if r.random() < 0.2)
 
